@@ -716,3 +716,16 @@ Definition contents_view (s : state) (k : path) : option (list N) :=
   end.
 
 Definition keys_view (s : state) : list path := map fst (allobjs s).
+
+(* the base OBJECTS that compute_mro finally keeps for the class registered under k (None for each unresolved base) *)
+Definition baseobjs_view (s : state) (k : path) : option (list (option path)) :=
+  match pget k (allobjs s) with
+  | Some o =>
+    match tag_of s o with
+    | Some t => if N.eqb t T_CLASS
+                then Some (map (fun b => match snd b with Some c => Some (full_name s c) | None => None end) (final_bases s o))
+                else None
+    | None => None
+    end
+  | None => None
+  end.
